@@ -21,10 +21,12 @@ or renaming a local variable does not.
 | ccp_util.py `L4Object.__init__`: `"neq " / "eq " / "range " / "lt " / "gt " in …`, `re.split(r"\s+", …)`, `re.search(r"^\S+$", …)`, `== "asa" / "tcp" / "udp"` | `ladder` (`hasSub`, `words`), `parseSpec` |
 
 The pieces every matcher is built from: `ws1` = `\s+`, `tok` = `(\S+)`, `lit`, `digits1` = `\d+`, `dottedQuad` =
-`\d+\.\d+\.\d+\.\d+`.  `rxScan…` are *scan lists*: every regex call, literal `str` separator, `"lit" in …` test and
-comparison against a `str` literal of the function, distinct, in order of first appearance, as
-`(callee, text, flags or subscript)`; `<NAME>` refers to the compiled module constant `NAME`, whose text is the
-separate definition.
+`\d+\.\d+\.\d+\.\d+`.  `rx…` are *scan sets* (`harness/rxscan.py`, `scan_closure`): for the named entry point and every helper of the same
+source file it reaches, every regex call (with flags; a compiled pattern's method is reported as the `re.` function
+with the pattern's text), literal `str` separator, `"lit" in …` test and comparison against a `str` literal (with the constant subscript of the other side), as a sorted duplicate-free list of
+`(what, text, flags or detail)`.  So a regex call that is added to, or removed from, the modelled code breaks the
+obligation as well, while moving a test into a helper method, re-ordering tests, negating one (`!=` is reported as
+`==`, `not in` as `in`), hoisting a pattern into a compiled constant or renaming a constant / local variable does not.
 -/
 namespace Ccp.RxC20
 
@@ -32,68 +34,42 @@ namespace Ccp.RxC20
 source for which the model contains a hand-written scanner has the text that scanner was written for.  (The goals
 are named `regexes_as_modelled__<definition>`, so that a failing build names the constant that was edited.) -/
 theorem regexes_as_modelled :
-    Gen.rxAsaReNames =
-      "^\\s*name\\s+(\\d+\\.\\d+\\.\\d+\\.\\d+)\\s+(\\S+)" ∧
-    Gen.rxAsaReNamesFlags =
-      "" ∧
-    Gen.rxAsaReObjNet =
-      "^\\s*object-group\\s+network\\s+(\\S+)" ∧
-    Gen.rxAsaReObjNetFlags =
-      "" ∧
-    Gen.rxAsaReObjAcl =
-      "^\\s*access-list\\s+(\\S+)" ∧
-    Gen.rxAsaReObjAclFlags =
-      "" ∧
-    Gen.rxAsaNetObject =
-      "(?:(^\\s*network-object\\s+host\\s+(?P<host>\\S+))|(^\\s*network-object\\s+(?P<network>\\S+)\\s+(?P<netmask>\\d+\\.\\d+\\.\\d+\\.\\d+))|(^\\s*group-object\\s+(?P<groupobject>\\S+)))" ∧
-    Gen.rxAsaNetObjectFlags =
-      "VERBOSE" ∧
-    Gen.rxAsaNameObject =
-      "^name\\s+(?P<addr>\\d+\\.\\d+\\.\\d+\\.\\d+)\\s(?P<name>\\S+)" ∧
-    Gen.rxAsaNameObjectFlags =
-      "VERBOSE" ∧
-    Gen.rxScanAsaNames =
-      [("!=", "asa", ""),
-       (".re_match_typed", "^\\s*name\\s+(\\d+\\.\\d+\\.\\d+\\.\\d+)\\s+(\\S+)", "")] ∧
-    Gen.rxScanAsaObjNet =
-      [("!=", "asa", ""),
-       (".re_match_typed", "^\\s*object-group\\s+network\\s+(\\S+)", "")] ∧
-    Gen.rxScanAsaAcl =
-      [("!=", "asa", ""),
-       (".re_match_typed", "^\\s*access-list\\s+(\\S+)", "")] ∧
-    Gen.rxScanAsaGroupInit =
+    Gen.rxAsaNames =
+      [(".re_match_typed", "^\\s*name\\s+(\\d+\\.\\d+\\.\\d+\\.\\d+)\\s+(\\S+)", ""),
+       ("==", "asa", "")] ∧
+    Gen.rxAsaObjNet =
+      [(".re_match_typed", "^\\s*object-group\\s+network\\s+(\\S+)", ""),
+       ("==", "asa", "")] ∧
+    Gen.rxAsaAcl =
+      [(".re_match_typed", "^\\s*access-list\\s+(\\S+)", ""),
+       ("==", "asa", "")] ∧
+    Gen.rxAsaGroupInit =
       [(".re_match_typed", "^object-group\\s+network\\s+(\\S+)", "")] ∧
-    Gen.rxScanAsaGroupIsObjectFor =
+    Gen.rxAsaGroupIsObjectFor =
       [("lit in", "object-group network ", "[0:21].lower()")] ∧
-    Gen.rxScanAsaGroupNetworkStrings =
-      [("_RE_NETOBJECT.search", "<_RE_NETOBJECT>", "VERBOSE"),
-       ("==", "255.255.255.255", "['netmask']"),
-       ("lit in", "description ", "")] ∧
-    Gen.rxScanAsaNameInit =
-      [("_RE_NAMEOBJECT.search", "<_RE_NAMEOBJECT>", "VERBOSE")] ∧
-    Gen.rxScanAsaNameIsObjectFor =
+    Gen.rxAsaGroupNetworkStrings =
+      [("==", "255.255.255.255", "['netmask']"),
+       ("lit in", "description ", ""),
+       ("re.search", "(?:(^\\s*network-object\\s+host\\s+(?P<host>\\S+))|(^\\s*network-object\\s+(?P<network>\\S+)\\s+(?P<netmask>\\d+\\.\\d+\\.\\d+\\.\\d+))|(^\\s*group-object\\s+(?P<groupobject>\\S+)))", "VERBOSE")] ∧
+    Gen.rxAsaNameInit =
+      [("re.search", "^name\\s+(?P<addr>\\d+\\.\\d+\\.\\d+\\.\\d+)\\s(?P<name>\\S+)", "VERBOSE")] ∧
+    Gen.rxAsaNameIsObjectFor =
       [("lit in", "name ", "[0:5].lower()")] ∧
-    Gen.rxScanL4ObjectInit =
+    Gen.rxL4ObjectInit =
       [("==", "asa", ""),
        ("==", "tcp", ""),
        ("==", "udp", ""),
-       ("lit in", "neq ", ""),
-       ("re.split", "\\s+", ""),
        ("lit in", "eq ", ""),
-       ("re.search", "^\\S+$", ""),
-       ("lit in", "range ", ""),
+       ("lit in", "gt ", ""),
        ("lit in", "lt ", ""),
-       ("lit in", "gt ", "")] := by
-  refine ⟨?regexes_as_modelled__rxAsaReNames, ?regexes_as_modelled__rxAsaReNamesFlags,
-    ?regexes_as_modelled__rxAsaReObjNet, ?regexes_as_modelled__rxAsaReObjNetFlags,
-    ?regexes_as_modelled__rxAsaReObjAcl, ?regexes_as_modelled__rxAsaReObjAclFlags,
-    ?regexes_as_modelled__rxAsaNetObject, ?regexes_as_modelled__rxAsaNetObjectFlags,
-    ?regexes_as_modelled__rxAsaNameObject, ?regexes_as_modelled__rxAsaNameObjectFlags,
-    ?regexes_as_modelled__rxScanAsaNames, ?regexes_as_modelled__rxScanAsaObjNet,
-    ?regexes_as_modelled__rxScanAsaAcl, ?regexes_as_modelled__rxScanAsaGroupInit,
-    ?regexes_as_modelled__rxScanAsaGroupIsObjectFor, ?regexes_as_modelled__rxScanAsaGroupNetworkStrings,
-    ?regexes_as_modelled__rxScanAsaNameInit, ?regexes_as_modelled__rxScanAsaNameIsObjectFor,
-    ?regexes_as_modelled__rxScanL4ObjectInit⟩
+       ("lit in", "neq ", ""),
+       ("lit in", "range ", ""),
+       ("re.search", "^\\S+$", ""),
+       ("re.split", "\\s+", "")] := by
+  refine ⟨?regexes_as_modelled__rxAsaNames, ?regexes_as_modelled__rxAsaObjNet, ?regexes_as_modelled__rxAsaAcl,
+    ?regexes_as_modelled__rxAsaGroupInit, ?regexes_as_modelled__rxAsaGroupIsObjectFor,
+    ?regexes_as_modelled__rxAsaGroupNetworkStrings, ?regexes_as_modelled__rxAsaNameInit,
+    ?regexes_as_modelled__rxAsaNameIsObjectFor, ?regexes_as_modelled__rxL4ObjectInit⟩
   all_goals rfl
 
 end Ccp.RxC20
